@@ -75,9 +75,29 @@ func (m *Machine) cannotBe(a, o *Term, depth int) bool {
 	case "ite":
 		return m.cannotBe(a.args[1], o, depth+1) && m.cannotBe(a.args[2], o, depth+1)
 	case "select":
+		// content of objects we did not allocate ourselves and that are not known to be old
+		// (e.g. objects allocated by a callee) is unconstrained
+		if !m.knownIndex(a) {
+			return false
+		}
 		return m.arrCannotHold(a.args[0], o, depth+1)
 	}
 	return false
+}
+
+// knownIndex: the object index of a memory read select(M, ref) / select(select(M, ref), i)
+// is an old object or one of our own allocations.
+func (m *Machine) knownIndex(sel *Term) bool {
+	idx := sel.args[1]
+	if inner := sel.args[0]; inner.op == "select" && inner.sort.K == SArr && idx.sort != IntSort {
+		idx = inner.args[1]
+	} else if inner.op == "select" && inner.sort.K == SArr && inner.args[0].sort.K == SArr && inner.args[0].sort.Idx == IntSort && inner.args[0].sort.Elem.K == SArr {
+		idx = inner.args[1]
+	}
+	if idx.sort != IntSort {
+		return true
+	}
+	return idx.rc == rcOld || idx.IsNum()
 }
 
 // arrCannotHold: no element of array term arr (possibly nested) can be the fresh object o.
